@@ -181,7 +181,8 @@ class Ctx:
         props_rel = props_rel or "Props/%s.v" % self.pid
         target = "theories/" + props_rel[:-2] + ".vo"
         self.checker_cmd = "make -C /verif/coq -j16 %s  (coq_makefile, full .vo build, Coq 8.16.1) + coqc Print Assumptions" % target
-        ok, log = self.coq_build([target])
+        extra = ["theories/" + t for t in getattr(self, "coq_targets", [])]
+        ok, log = self.coq_build([target] + extra)
         cone = self.cone(props_rel)
         nob, bad = 0, []
         for r in cone:
